@@ -199,14 +199,20 @@ theorem hvExpandDims_eq_spec {S D G E : Type} (o : StoreOps S D G E) (x : StoreE
     Gen.hvExpandDims o x dn xf g st = rewriteSpec o x dn xf g st := by
   first
   | (simp only [Gen.hvExpandDims, rewriteSpec, stBind_pure]
-     congr 1; funext st1
-     cases (if o.memIsNone st1 then Except.error x.noneAttr else xf (o.mem st1)) <;> cases dn <;> simp
+     first
+     | rfl
+     | (congr 1; done)
+     | (congr 1; funext st1
+        cases (if o.memIsNone st1 then Except.error x.noneAttr else xf (o.mem st1)) <;> cases dn <;> (try simp))
      done)
   | (have e1 : @Gen.hvFullDs = @Gen.Default.hvFullDs := by same_gen [Gen.hvFullDs, Gen.Default.hvFullDs]
      have e2 : @Gen.hvSaveFull = @Gen.Default.hvSaveFull := by same_gen [Gen.hvSaveFull, Gen.Default.hvSaveFull]
      simp only [Gen.hvExpandDims, Gen.Default.hvExpandDims, rewriteSpec, stBind_pure, e1, e2]
-     congr 1; funext st1
-     cases (if o.memIsNone st1 then Except.error x.noneAttr else xf (o.mem st1)) <;> cases dn <;> simp
+     first
+     | rfl
+     | (congr 1; done)
+     | (congr 1; funext st1
+        cases (if o.memIsNone st1 then Except.error x.noneAttr else xf (o.mem st1)) <;> cases dn <;> (try simp))
      done)
 
 theorem hvDropSel_eq_spec {S D G E : Type} (o : StoreOps S D G E) (x : StoreExt S D G E) (dn : Bool)
@@ -214,14 +220,20 @@ theorem hvDropSel_eq_spec {S D G E : Type} (o : StoreOps S D G E) (x : StoreExt 
     Gen.hvDropSel o x dn xf g st = rewriteSpec o x dn xf g st := by
   first
   | (simp only [Gen.hvDropSel, rewriteSpec, stBind_pure]
-     congr 1; funext st1
-     cases (if o.memIsNone st1 then Except.error x.noneAttr else xf (o.mem st1)) <;> cases dn <;> simp
+     first
+     | rfl
+     | (congr 1; done)
+     | (congr 1; funext st1
+        cases (if o.memIsNone st1 then Except.error x.noneAttr else xf (o.mem st1)) <;> cases dn <;> (try simp))
      done)
   | (have e1 : @Gen.hvFullDs = @Gen.Default.hvFullDs := by same_gen [Gen.hvFullDs, Gen.Default.hvFullDs]
      have e2 : @Gen.hvSaveFull = @Gen.Default.hvSaveFull := by same_gen [Gen.hvSaveFull, Gen.Default.hvSaveFull]
      simp only [Gen.hvDropSel, Gen.Default.hvDropSel, rewriteSpec, stBind_pure, e1, e2]
-     congr 1; funext st1
-     cases (if o.memIsNone st1 then Except.error x.noneAttr else xf (o.mem st1)) <;> cases dn <;> simp
+     first
+     | rfl
+     | (congr 1; done)
+     | (congr 1; funext st1
+        cases (if o.memIsNone st1 then Except.error x.noneAttr else xf (o.mem st1)) <;> cases dn <;> (try simp))
      done)
 
 /-- a partial transformation of the model as the operation handed to the skeleton -/
